@@ -522,6 +522,10 @@ def bounded(sess: Session):
 
 
 def run(sess: Session):
+    from contracts import C12 as _c12
+    for _ob in _c12.placeholder_identity_obligations():
+        _ob.prop = PROP          # seen-sets / path sets of synsets rely on it to keep inferred placeholders apart
+        sess.check(_ob)
     sess.assume('A-FLOAT', 'A-ENGINE', 'C13-contracts', 'C15-contracts')
     sess.trust('floats are reals, log strictly increasing (A-FLOAT)', 'the taxonomy contracts used here are the '
                'obligations of C13, the weight-table contract is C15')
